@@ -6029,6 +6029,17 @@ int32 psX509AuthenticateCert(psPool_t *pool, psX509Cert_t *subjectCert,
     }
     else
     {
+        if (issuerCert->parseStatus != PS_X509_PARSE_SUCCESS)
+        {
+            /* A CA list loaded with CERT_ALLOW_BUNDLE_PARTIAL_PARSE keeps
+               an entry for each certificate whose parse FAILED (unsupported
+               critical extension, algorithm, ...).  It is there for the
+               application to inspect, partly filled in, and is not an
+               issuer of anything */
+            psTraceCrypto("Issuer certificate was rejected by the parser\n");
+            subjectCert->authStatus = PS_CERT_AUTH_FAIL_DN;
+            return PS_CERT_AUTH_FAIL_DN;
+        }
         /* The issuer is typically a trust anchor shared by every session
            that uses the key set: do not write to it unless needed */
         if (issuerCert->authStatus != PS_FALSE)
